@@ -1675,7 +1675,7 @@ class TcpClientStack(ClientStreamStack, IpStack):
         Service the .txPkts deque of packed packets to send packets through server
         Override in subclass
         """
-        while (self.txPkts and self.handler.connected and not self.handler.cutoff):
+        while ((self.txbs or self.txPkts) and self.handler.connected and not self.handler.cutoff):
             if not self._serviceOneTxPkt():
                 break  # blocked try again later
 
@@ -1683,7 +1683,7 @@ class TcpClientStack(ClientStreamStack, IpStack):
         '''
         Service .txPkts deque once (one pkt)
         '''
-        if (self.txPkts and self.handler.connected and not self.handler.cutoff):
+        if ((self.txbs or self.txPkts) and self.handler.connected and not self.handler.cutoff):
             self._serviceOneTxPkt()
 
     def _serviceOneReceived(self):
